@@ -152,10 +152,281 @@ def cc_tables():
     return out
 
 
+
+# ---- mutation / assignment histories (header sets, cache-control, CSP) ----
+
+#: member names with case variants of each other (ASCII case folding only: `str.lower` of the model
+#: is ASCII; the non-ASCII members are caseless), quoting-relevant members, the empty string
+HS_POOL = ["GET", "get", "Get", "gET", "POST", "post", "Cookie", "cookie", "COOKIE", "Accept-Encoding", "accept-encoding", "ACCEPT-ENCODING",
+           "a", "A", "b", "B", "x y", "X Y", 'q"', 'Q"', "a,b", "A,B", "", "\\", "é", "€", "*", "0"]
+
+
+def hs_member(rng):
+    return rng.choice(HS_POOL) if rng.random() < 0.9 else rand_text(rng, 3)
+
+
+def gen_set_hist(rng):
+    r = rng.random()
+    init = [hs_member(rng) for _ in range(rng.choice([0, 1, 1, 2, 3, 4]))]
+    if r < 0.7:
+        # mostly a proper set: members distinct ignoring case
+        seen, init2 = set(), []
+        for x in init:
+            if x.lower() not in seen:
+                seen.add(x.lower())
+                init2.append(x)
+        init = init2
+    ops, cur = [], list(init)
+    for _ in range(rng.choice([1, 1, 2, 3, 4, 6])):
+        k = rng.random()
+        existing = rng.choice(cur) if cur else hs_member(rng)
+        variant = rng.choice([existing, existing.lower(), existing.upper(), existing.swapcase(), existing.title()])
+        pick = variant if rng.random() < 0.6 else hs_member(rng)
+        if k < 0.2:
+            ops.append(["a", hs(pick)])
+        elif k < 0.32:
+            ops.append(["r", hs(pick)])
+        elif k < 0.44:
+            ops.append(["d", hs(pick)])
+        elif k < 0.54:
+            ops.append(["u", [hs(rng.choice([pick, hs_member(rng)])) for _ in range(rng.randrange(0, 4))]])
+        elif k < 0.58:
+            ops.append(["c"])
+        elif k < 0.68:
+            ops.append(["x", rng.randrange(-4, 4)])
+        else:
+            # item assignment: most often a case variant of the entry it replaces
+            if cur and rng.random() < 0.7:
+                i = rng.randrange(len(cur))
+                if rng.random() < 0.5:
+                    i -= len(cur)
+                old = cur[i]
+                v = rng.choice([old.lower(), old.upper(), old.swapcase(), old.title(), old]) if rng.random() < 0.7 else hs_member(rng)
+            else:
+                i, v = rng.randrange(-4, 4), hs_member(rng)
+            ops.append(["s", i, hs(v)])
+        cur = ref_set_hist(init, ops)[0]
+    return {"codec": "set-hist", "init": [hs(x) for x in init], "ops": ops}
+
+
+def ref_set_hist(init, ops):
+    """the documented meaning of a HeaderSet history - a case-insensitive ordered set - and whether
+    the history stays in C06's domain: initial members distinct ignoring case and no item assignment
+    that duplicates *another* member (known findings F08c / F08b otherwise)"""
+    members = list(init)
+    ok = len({m.lower() for m in members}) == len(members)
+
+    def add(x):
+        if x.lower() not in [m.lower() for m in members]:
+            members.append(x)
+
+    def drop(x):
+        for i, m in enumerate(members):
+            if m.lower() == x.lower():
+                del members[i]
+                return
+
+    for op in ops:
+        k = op[0]
+        if k == "a":
+            add(unhs(op[1]))
+        elif k in ("r", "d"):
+            drop(unhs(op[1]))
+        elif k == "u":
+            for x in op[1]:
+                add(unhs(x))
+        elif k == "c":
+            members.clear()
+        elif k == "x":
+            if -len(members) <= op[1] < len(members):
+                del members[op[1]]
+        elif k == "s":
+            i, v = op[1], unhs(op[2])
+            if -len(members) <= i < len(members):
+                others = members[:]
+                del others[i]
+                if v.lower() in [m.lower() for m in others]:
+                    ok = False
+                members[i] = v
+    return members, ok
+
+
+def run_set_hist(case):
+    from werkzeug import datastructures as ds
+
+    h = ds.HeaderSet([unhs(x) for x in case["init"]])
+    log = []
+    for op in case["ops"]:
+        try:
+            k = op[0]
+            if k == "a":
+                h.add(unhs(op[1]))
+            elif k == "r":
+                h.remove(unhs(op[1]))
+            elif k == "d":
+                h.discard(unhs(op[1]))
+            elif k == "u":
+                h.update([unhs(x) for x in op[1]])
+            elif k == "c":
+                h.clear()
+            elif k == "x":
+                del h[op[1]]
+            elif k == "s":
+                h[op[1]] = unhs(op[2])
+            log.append("ok")
+        except (KeyError, IndexError) as e:
+            log.append(type(e).__name__)
+    return h, log
+
+
+def c_hs(h):
+    return c_list(list(h)) + "|" + c_list(sorted(h.as_set())) + "|" + str(len(h))
+
+
+def hs_op_line(op):
+    k = op[0]
+    if k == "u":
+        return "u:" + ("[]" if not op[1] else "+".join(op[1]))
+    return ":".join(str(x) for x in op)
+
+
+def c_ccval2(v):
+    if v is None:
+        return "none"
+    if v is True:
+        return "true"
+    if v is False:
+        return "false"
+    if isinstance(v, int):
+        return f"i{v}"
+    return "s" + hs(v)
+
+
+def gen_cc_hist(rng, table):
+    """assignments through the typed properties of ResponseCacheControl, dict-style writes, deletions"""
+    base = {}
+    for _ in range(rng.randrange(0, 3)):
+        _, k2, _, _ = rng.choice(table)
+        base[k2] = rng.choice([None, str(rng.randrange(0, 100)), rand_text(rng, 3)])
+    ops = []
+    for _ in range(rng.choice([1, 2, 2, 3, 4, 6])):
+        attr, key, empty, ty = rng.choice(table)
+        k = rng.random()
+        if k < 0.6:
+            if ty is bool:
+                val = rng.random() < 0.6
+            elif ty is int:
+                val = rng.choice([None, rng.randrange(0, 10**6), rng.randrange(-50, 50), True, False, 0])
+            else:
+                val = rng.choice([None, True, False, rand_text(rng, 5), "a, b"])
+            ops.append(["t", attr, c_ccval2(val)])
+        elif k < 0.72:
+            ops.append(["x", attr])
+        elif k < 0.86:
+            kk = key if rng.random() < 0.5 else (rand_token(rng) if rng.random() < 0.85 else rand_text(rng, 3))
+            ops.append(["i", hs(kk), opt(hs, rng.choice([None, rand_text(rng, 4), str(rng.randrange(0, 50))]))])
+        elif k < 0.96:
+            ops.append(["p", hs(key if rng.random() < 0.7 else rand_token(rng))])
+        else:
+            ops.append(["c"])
+    return {"codec": "cc-hist", "base": [[hs(k), opt(hs, v)] for k, v in base.items()], "ops": ops}
+
+
+def dec_ccval2(x):
+    if x == "none":
+        return None
+    if x == "true":
+        return True
+    if x == "false":
+        return False
+    if x[0] == "i":
+        return int(x[1:])
+    return unhs(x[1:])
+
+
+def run_cc_hist(case):
+    from werkzeug import datastructures as ds
+
+    obj = ds.ResponseCacheControl({unhs(k): (None if v == "~" else unhs(v)) for k, v in case["base"]})
+    for op in case["ops"]:
+        k = op[0]
+        if k == "t":
+            setattr(obj, op[1], dec_ccval2(op[2]))
+        elif k == "x":
+            delattr(obj, op[1])
+        elif k == "i":
+            obj[unhs(op[1])] = None if op[2] == "~" else unhs(op[2])
+        elif k == "p":
+            obj.pop(unhs(op[1]), None)
+        elif k == "c":
+            obj.clear()
+    return obj
+
+
+def gen_csp_hist(rng, keys):
+    base = {}
+    for _ in range(rng.randrange(0, 3)):
+        base[rng.choice(keys)] = rng.choice(["'self'", "https://x.example", "data: *"])
+    ops = []
+    for _ in range(rng.choice([1, 2, 2, 3, 4, 6])):
+        key = rng.choice(keys) if rng.random() < 0.85 else rand_text(rng, 3)
+        k = rng.random()
+        if k < 0.65:
+            v = " ".join(rng.choice(["'self'", "https://x.example", "data:", "*", "'none'"]) for _ in range(rng.randrange(1, 3))) if rng.random() < 0.85 else rand_text(rng, 4)
+            ops.append(["s", hs(key), hs(v) if rng.random() < 0.85 else "~"])
+        elif k < 0.95:
+            ops.append(["d", hs(key)])
+        else:
+            ops.append(["c"])
+    return {"codec": "csp-hist", "base": [[hs(k), hs(v)] for k, v in base.items()], "ops": ops}
+
+
+def run_csp_hist(case, keys):
+    from werkzeug import datastructures as ds
+
+    obj = ds.ContentSecurityPolicy({unhs(k): unhs(v) for k, v in case["base"]})
+    for op in case["ops"]:
+        k = op[0]
+        if k == "c":
+            obj.clear()
+            continue
+        key = unhs(op[1])
+        attr = key.replace("-", "_") if key in keys else None
+        if k == "s":
+            v = None if op[2] == "~" else unhs(op[2])
+            if attr is not None:
+                setattr(obj, attr, v)  # the typed property
+            elif v is None:
+                obj.pop(key, None)
+            else:
+                obj[key] = v
+        elif k == "d":
+            if attr is not None:
+                delattr(obj, attr)
+            else:
+                obj.pop(key, None)
+    return obj
+
+
+def csp_keys():
+    import inspect
+
+    from werkzeug.datastructures import ContentSecurityPolicy
+
+    out = []
+    for name in sorted(dir(ContentSecurityPolicy)):
+        p = inspect.getattr_static(ContentSecurityPolicy, name)
+        if isinstance(p, property) and p.fget is not None and p.fget.__closure__:
+            cells = {n: c.cell_contents for n, c in zip(p.fget.__code__.co_freevars, p.fget.__closure__)}
+            if "key" in cells and name == cells["key"].replace("-", "_"):
+                out.append(cells["key"])
+    return out
+
+
 class CodecPairs(Stream):
     name = "codec-pairs"
 
-    CODECS = ["quote", "list", "set", "dict", "options", "etag", "etags", "range", "crange", "age", "cc", "csp", "auth", "www", "date", "dateaware", "ifrange", "etags-text", "list-text"]
+    CODECS = ["quote", "list", "set", "dict", "options", "etag", "etags", "range", "crange", "age", "cc", "csp", "auth", "www", "date", "dateaware", "ifrange", "etags-text", "list-text", "set-hist", "set-hist", "cc-hist", "csp-hist", "range-text", "crange-text", "csp-text", "dict-text"]
 
     corpus = [
         {"codec": "quote", "v": hs(v), "allow": a}
@@ -171,7 +442,7 @@ class CodecPairs(Stream):
         for d in [[], [("a", "b")], [("a", None)], [("a", "b c"), ("d", None), ("e", "")], [("a*", "x")], [("a*", "utf-8''%C3%A9")], [("k", 'q"\\')], [("a", "="), ("b", "x=y")]]
     ] + [
         {"codec": "options", "h": opt(hs, h), "d": [[hs(k), opt(hs, v)] for k, v in d]}
-        for h, d in [("text/html", []), ("text/html", [("charset", "utf-8")]), ("form-data", [("name", 'a"b'), ("filename", "x y.txt")]), ("a", [("k", "%22")]), ("a", [("k", "x %22 y")]), ("a", [("k*", "utf-8''%C3%A9")]), ("a", [("k*0", "x")]), ("", [("k", "v")]), ("a;b", [("k", "v")]), (" a", [("k", "v")]), ("a", [("K", "v")]), ("a", [("k", "")]), ("a", [("k", None)]), (None, [("k", "v")]), ("a", [("k", "\\")]), ("a", [("k", ";")])]
+        for h, d in [("text/html", []), ("text/html", [("charset", "utf-8")]), ("form-data", [("name", 'a"b'), ("filename", "x y.txt")]), ("a", [("k", "%22")]), ("a", [("k", "x %22 y")]), ("a", [("k*", "utf-8''%C3%A9")]), ("a", [("k*0", "x")]), ("", [("k", "v")]), ("a;b", [("k", "v")]), (" a", [("k", "v")]), ("a", [("K", "v")]), ("a", [("k", "")]), ("a", [("k", None)]), (None, [("k", "v")]), ("a", [("k", "\\")]), ("a", [("k", ";")]), ("form-data", [("name", "upload"), ("filename", "x; name=other")]), ("a", [("filename", "a; size=1.txt")]), ("a", [("k", 'x"; j="y')]), ("a", [("k", "v, j=w")])]
     ] + [
         {"codec": "etag", "e": hs(e), "weak": w} for w in (False, True) for e in ["", "abc", "a b", 'a"b', "W/x", " x ", "*", "a,b"]
     ] + [
@@ -208,6 +479,38 @@ class CodecPairs(Stream):
         for h in ["", "a", '"a"', 'a"b', 'a"', '"a', '"a" x"', 'W/"a", b , "c"', "W/", "w/x", ",", " , a ,", '"a", "b"x, c', '""', "*", "*, a", 'a, *', '"a\\"', "a\xa0,\xa0b", 'W/"a"b', '"a",b"', '"a" ,b"']
     ]
 
+
+    corpus = corpus + [
+        {"codec": c, "h": hs(h)}
+        for c, hh in [
+            ("range-text", ["bytes=0-4", " BYTES= 0 - 4 ,7- ", "bytes=-5", "bytes=0-0,-1", "=0-1", "a=b=0-1", "bytes=5-3", "bytes=0-4,2-6", "bytes=", "bytes=0-,1-2", "İ=0-1", "x\xa0=\xa00-1\xa0", "bytes=-0", "bytes=--1", "ß=1-2"]),
+            ("crange-text", ["bytes 0-4/10", "  items\t 3-7/* ", "bytes */5", "bytes */*", "b 5-3/9", "b 0-4/3", "a/b 1-2/3", "bytes 0-4", "b  0-0/1", "b -1-2/5", "b 0-4/-1", "b\xa00-1/2", "b 0 - 1/2"]),
+            ("csp-text", ["default-src 'self'", " a  b ;; c\td e;x; a z ", "a b;a c", ";", "a", "a\xa0b c", " a \t b ", "a b; A c", "a  ", "a=b c;d"]),
+            ("dict-text", ["a=b", "max-age=5, private=\"a, b\", no-store, x = \" y\"", "a**=b", 'a"b=c, d"', "a*=utf-8''%C3%A9", "=x", "a=, b", "a b=c", "a=b=c", 'k="\\"', "A=1, a=2", "a;b=c"]),
+        ]
+        for h in hh
+    ] + [
+        {"codec": "set-hist", "init": [hs(x) for x in init], "ops": ops}
+        for init, ops in [
+            (["GET"], [["s", 0, hs("get")]]), (["Cookie", "Accept"], [["s", 0, hs("cookie")], ["s", -1, hs("ACCEPT")]]), (["a", "b"], [["s", 0, hs("B")]]), (["a", "b"], [["s", 0, hs("B")], ["r", hs("b")]]),
+            (["a", "A"], [["r", hs("a")]]), (["a", "A"], []), (["foo", "bar"], [["r", hs("Foo")]]), (["foo"], [["d", hs("x")], ["r", hs("x")], ["x", 5], ["s", 3, hs("y")]]),
+            ([], [["a", hs("x y")], ["a", hs("X Y")], ["u", [hs("q"), hs("Q"), hs("")]], ["x", 0]]), (["a", "b", "c"], [["x", -1], ["c"], ["a", hs("C")]]), (["a"], [["s", 0, hs("A")], ["s", 0, hs("a")], ["a", hs("A")]]),
+        ]
+    ] + [
+        {"codec": "cc-hist", "base": [[hs(k), opt(hs, v)] for k, v in base], "ops": ops}
+        for base, ops in [
+            ([], [["t", "max_age", "i5"], ["t", "no_store", "true"], ["x", "max_age"]]), ([("max-age", "5")], [["t", "max_age", "none"], ["t", "private", "s" + hs("a")]]),
+            ([("no-cache", None)], [["t", "no_cache", "false"], ["t", "no_cache", "true"], ["i", hs("x-ext"), hs("a b")], ["p", hs("x-ext")]]), ([("a", "b")], [["c"], ["t", "public", "true"]]),
+            ([], [["t", "max_age", "true"], ["t", "s_maxage", "i-3"], ["t", "must_revalidate", "true"], ["t", "must_revalidate", "false"]]), ([], [["i", hs("a,b"), hs("x")]]),
+        ]
+    ] + [
+        {"codec": "csp-hist", "base": [[hs(k), hs(v)] for k, v in base], "ops": ops}
+        for base, ops in [
+            ([], [["s", hs("default-src"), hs("'self'")], ["s", hs("img-src"), hs("data: *")], ["s", hs("default-src"), "~"]]), ([("default-src", "'self'")], [["d", hs("default-src")], ["s", hs("x"), hs("y")]]),
+            ([("a", "b")], [["c"], ["s", hs("script-src"), hs("'none'")]]), ([], [["s", hs("report-uri"), hs("/r;x")]]), ([], [["s", hs("script-src"), hs(" x")]]),
+        ]
+    ]
+
     def cases(self, rng, tier):
         tables = cc_tables()
         while True:
@@ -231,6 +534,10 @@ class CodecPairs(Stream):
             for _ in range(rng.randrange(0, 4)):
                 k = rand_token(rng, lower=rng.random() < 0.9, star=rng.random() < 0.1) if rng.random() < 0.9 else rand_text(rng, 3)
                 d[k] = rand_text(rng, 5) if rng.random() < 0.95 else None
+                if d[k] is not None and rng.random() < 0.2:
+                    # a value that itself looks like further parameters / list items
+                    other = rng.choice(list(d)) if rng.random() < 0.5 else rand_token(rng, lower=True)
+                    d[k] += rng.choice(["; ", ";", " ; ", ", ", '"; ']) + other + "=" + rng.choice([rand_token(rng), '"' + rand_text(rng, 3).replace('"', "") + '"', ""])
             return {"codec": codec, "h": hs(h), "d": [[hs(k), opt(hs, v)] for k, v in d.items()]}
         if codec == "etag":
             return {"codec": codec, "e": hs(rand_text(rng, 5)), "weak": rng.random() < 0.5}
@@ -332,6 +639,18 @@ class CodecPairs(Stream):
         if codec in ("etags-text", "list-text"):
             toks = ['"', '"', ",", ", ", " ", "W/", "w/", "a", "b", "*", "\\", '\\"', "x y", "\xa0", "\u00e9", ";", "="]
             return {"codec": codec, "h": hs("".join(rng.choice(toks) for _ in range(rng.randrange(0, 9))))}
+        if codec in ("range-text", "crange-text", "csp-text", "dict-text"):
+            toks = {"range-text": ["bytes", "=", "-", ",", " ", "0", "1", "5", "10", "-", "=", "B", "x", "\xa0", "+", "_"],
+                    "crange-text": ["bytes", " ", "/", "-", "*", "0", "1", "5", "10", "\t", "b", "\xa0", "-", "/"],
+                    "csp-text": ["default-src", " ", ";", "'self'", "a", "b", "\t", " ", ";", "\xa0", "A", "data:", "=", ","],
+                    "dict-text": ["a", "b", "=", ",", " ", '"', "*", "\\", "max-age", "5", "k", "=", ",", "utf-8''", "%C3%A9", ";", "A"]}[codec]
+            return {"codec": codec, "h": hs("".join(rng.choice(toks) for _ in range(rng.randrange(0, 10))))}
+        if codec == "set-hist":
+            return gen_set_hist(rng)
+        if codec == "cc-hist":
+            return gen_cc_hist(rng, tables["response"])
+        if codec == "csp-hist":
+            return gen_csp_hist(rng, csp_keys())
         if codec == "ifrange":
             if rng.random() < 0.5:
                 return {"codec": codec, "etag": hs(rand_text(rng, 5).replace('"', "")), "t": None}
@@ -458,10 +777,46 @@ class CodecPairs(Stream):
             p = http.parse_etags(unhs(case["h"]))
             p2 = http.parse_etags(p.to_header())
             return unhs(case["h"]), self.c_etags_obj(p) + "#" + self.c_etags_obj(p2), p, self.c_etags_obj(p2)
+        if codec == "range-text":
+            p = http.parse_range_header(unhs(case["h"]))
+            p2 = "~" if p is None else exc(lambda: c_range(http.parse_range_header(p.to_header())))
+            return unhs(case["h"]), c_range(p) + "#" + p2, p, p2
+        if codec == "crange-text":
+            p = http.parse_content_range_header(unhs(case["h"]))
+            p2 = "~" if p is None else exc(lambda: c_crange(http.parse_content_range_header(p.to_header())))
+            return unhs(case["h"]), c_crange(p) + "#" + p2, p, p2
+        if codec == "csp-text":
+            c = lambda x: out_list(hs(k) + ":" + hs(v) for k, v in x.items())  # noqa: E731
+            p = http.parse_csp_header(unhs(case["h"]))
+            p2 = c(http.parse_csp_header(p.to_header()))
+            return unhs(case["h"]), c(p) + "#" + p2, p, p2
+        if codec == "dict-text":
+            p = http.parse_dict_header(unhs(case["h"]))
+            p2 = exc(lambda: c_pairs_opt(http.parse_dict_header(http.dump_header(p)).items()))
+            return unhs(case["h"]), c_pairs_opt(p.items()) + "#" + p2, p, p2
         if codec == "list-text":
             p = http.parse_list_header(unhs(case["h"]))
             p2 = http.parse_list_header(http.dump_header(p))
             return unhs(case["h"]), c_list(p) + "#" + c_list(p2), p, c_list(p2)
+        if codec == "set-hist":
+            h, log = run_set_hist(case)
+            w = h.to_header()
+            p = http.parse_set_header(w)
+            pre = out_list(log) + "|" + c_hs(h) + "|" + hs(w) + "|"
+            return w, pre + c_hs(p), (h, p), pre + c_hs(http.parse_set_header(p.to_header()))
+        if codec == "cc-hist":
+            obj = run_cc_hist(case)
+            w = obj.to_header()
+            p = http.parse_cache_control_header(w, cls=ds.ResponseCacheControl)
+            typed = lambda o: out_list(c_ccval2(getattr(o, r[0])) for r in cc_tables()["response"])  # noqa: E731
+            p2 = http.parse_cache_control_header(p.to_header(), cls=ds.ResponseCacheControl)
+            return w, c_pairs_opt(p.items()) + "|" + typed(p), (obj, p), c_pairs_opt(p2.items()) + "|" + typed(p2)
+        if codec == "csp-hist":
+            obj = run_csp_hist(case, csp_keys())
+            w = obj.to_header()
+            p = http.parse_csp_header(w)
+            c = lambda x: out_list(hs(k) + ":" + hs(v) for k, v in x.items())  # noqa: E731
+            return w, c(p), (obj, p), c(http.parse_csp_header(p.to_header()))
         if codec == "ifrange":
             ir = self.mk_ifrange(case)
             w = ir.to_header()
@@ -498,6 +853,8 @@ class CodecPairs(Stream):
 
     def real(self, case):
         w, cp, _, _ = self.run_real(case)
+        if case["codec"] == "set-hist":
+            return cp
         return hs(w) + "|" + cp
 
     # ---- model ----
@@ -542,6 +899,29 @@ class CodecPairs(Stream):
                 if unhs(ty) != unhs(case["type"]).lower() or any(ord(c) > 0xFF for c in unhs(case["type"])):
                     return None
             return line("pair." + codec, ty, out_list(k + ":" + v for k, v in case["params"]), opt(hs, dec_opt(case["token"])))
+        if codec == "set-hist":
+            if any(ord(c) > 0x7F and c.lower() != c.upper() for x in case["init"] + [a for op in case["ops"] for a in (op[1] if op[0] == "u" else op[1:]) if isinstance(a, str)] for c in unhs(x)):
+                return None  # the model's str.lower is ASCII case folding
+            return line("hist.set", out_list(case["init"]), out_list(hs_op_line(op) for op in case["ops"]))
+        if codec == "cc-hist":
+            table = {r[0]: r for r in cc_tables()["response"]}
+            ops = []
+            for op in case["ops"]:
+                if op[0] == "t":
+                    _, key, _, ty = table[op[1]]
+                    ops.append(":".join(["t", hs(key), "none" if ty is None else ty.__name__, op[2]]))
+                elif op[0] == "x":
+                    ops.append("x:" + hs(table[op[1]][1]))
+                else:
+                    ops.append(":".join(op))
+            qs = [":".join([hs(key), c_ccval2(empty), "none" if ty is None else ty.__name__]) for _, key, empty, ty in cc_tables()["response"]]
+            return line("hist.cc", out_list(k + ":" + v for k, v in case["base"]), out_list(ops), out_list(qs))
+        if codec == "csp-hist":
+            return line("hist.csp", out_list(k + ":" + v for k, v in case["base"]), out_list(":".join(op) for op in case["ops"]))
+        if codec in ("range-text", "crange-text", "csp-text", "dict-text"):
+            if codec == "range-text" and any(ord(c) > 0xFF for c in unhs(case["h"])):
+                return None  # str.lower() above U+00FF is outside the model
+            return line("nf." + codec[:-5], case["h"])
         if codec == "etags-text":
             return line("nf.etags", case["h"])
         if codec == "list-text":
@@ -553,7 +933,12 @@ class CodecPairs(Stream):
         return None  # ifrange: oracle only (parse_date on arbitrary text is Python's)
 
     def canon_model(self, case, out):
-        if case["codec"] == "list-text":
+        if case["codec"] == "set-hist" and out.count("|") == 7:
+            f = out.split("|")
+            srt = lambda x: x if x == "[]" else c_list(sorted(unhs(y) for y in x.split(",")))  # noqa: E731
+            f[2], f[6] = srt(f[2]), srt(f[6])
+            return "|".join(f)
+        if case["codec"] in ("list-text", "range-text", "crange-text", "csp-text", "dict-text"):
             return case["h"] + "|" + out
         if case["codec"] == "etags-text":
             def srt(p):
@@ -665,7 +1050,31 @@ class CodecPairs(Stream):
             except (OverflowError, ValueError):
                 return False
             return 1000 <= u.year <= 9999
-        if codec in ("etags-text", "list-text"):
+        if codec == "set-hist":
+            texts = [unhs(x) for x in case["init"]] + [unhs(a) for op in case["ops"] for a in (op[1] if op[0] == "u" else op[1:]) if isinstance(a, str)]
+            return all(no_crlf(x) for x in texts) and ref_set_hist([unhs(x) for x in case["init"]], case["ops"])[1]
+        if codec == "cc-hist":
+            ok = lambda k, v: is_token(unhs(k)) and "*" not in unhs(k) and (v == "~" or no_crlf(unhs(v)))  # noqa: E731
+            if not all(ok(k, v) for k, v in case["base"]):
+                return False
+            table = {r[0]: r for r in cc_tables()["response"]}
+            for op in case["ops"]:
+                if op[0] == "i" and not ok(op[1], op[2]):
+                    return False
+                if op[0] == "t":
+                    v, ty = dec_ccval2(op[2]), table[op[1]][3]
+                    if isinstance(v, str) and (ty is not None or not no_crlf(v)):
+                        return False
+                    if isinstance(v, int) and not isinstance(v, bool) and ty is not int:
+                        return False
+                    if ty is bool and not isinstance(v, bool):
+                        return False
+            return True
+        if codec == "csp-hist":
+            def ok(k, v):
+                return bool(k) and " " not in k and ";" not in k and k == k.strip() and bool(v) and v == v.strip() and ";" not in v and no_crlf(k + v)
+            return all(ok(unhs(k), unhs(v)) for k, v in case["base"]) and all(op[0] != "s" or op[2] == "~" or ok(unhs(op[1]), unhs(op[2])) for op in case["ops"])
+        if codec in ("etags-text", "list-text", "range-text", "crange-text", "csp-text", "dict-text"):
             return False  # correspondence only (arbitrary text is outside the property's quantifier)
         if codec == "ifrange":
             if case["etag"] not in (None, "~"):
@@ -758,6 +1167,28 @@ class CodecPairs(Stream):
         if codec == "ifrange":
             ir = self.mk_ifrange(case)
             return None if (p.etag, p.date) == (ir.etag, ir.date) else f"etag={p.etag!r} date={p.date!r}"
+        if codec == "set-hist":
+            h, q = p
+            probes = set(h) | set(q) | {x.upper() for x in h} | {x.lower() for x in q}
+            same = list(q) == list(h) and q.as_set() == h.as_set() and q.as_set(True) == h.as_set(True) and len(q) == len(h) and bool(q) == bool(h) and all((x in q) == (x in h) for x in probes)
+            return None if same else f"HeaderSet after the history: items {list(h)!r} len {len(h)} as_set {sorted(h.as_set())!r}; parsed back: items {list(q)!r} len {len(q)} as_set {sorted(q.as_set())!r}"
+        if codec == "cc-hist":
+            obj, q = p
+            if list(q.items()) != list(obj.items()):
+                return f"directives {dict(q)!r}, object had {dict(obj)!r}"
+            for attr, _, _, _ in cc_tables()["response"]:
+                a, b = getattr(obj, attr), getattr(q, attr)
+                if a != b or type(a) is not type(b):
+                    return f"{attr}={b!r}, object had {a!r}"
+            return None
+        if codec == "csp-hist":
+            obj, q = p
+            if list(q.items()) != list(obj.items()):
+                return f"policy {dict(q)!r}, object had {dict(obj)!r}"
+            for key in csp_keys():
+                if getattr(obj, key.replace("-", "_")) != getattr(q, key.replace("-", "_")):
+                    return f"{key} differs"
+            return None
         return None
 
     def finding_key(self, case, what):
@@ -778,24 +1209,29 @@ class CodecPairs(Stream):
 
 CHECK = Check(
     prop="C06",
-    gen=["Http", "PyFns_Http"],
-    modules=["WzVerif.Props.C06", "WzVerif.Props.C06T"],
+    gen=["Http", "PyFns_Http", "PyFns_Internal", "PyFns_HttpDict", "PyFns_Etag", "PyFns_Range", "Containers", "PyFns_Headers", "PyFns_HeaderSet", "PyFns_HttpOptions"],
+    modules=["WzVerif.Props.C06", "WzVerif.Props.C06T", "WzVerif.Props.C06T2"],
     streams=[CodecPairs(), PreludeKernels()],
     assumptions=[
+        "round 3 (Props/C06T2): parse_options_header (the scanner loop with its nested quoted-string loop, translated with explicit fuel; the RFC 2231 charset / continuation pass) is regenerated from the source (Gen/PyFns_HttpOptions.lean) and proved equal to the hand model parseOptionsHeader for every text and fuel >= len(value), values and errors alike; the four regexes enter as C06's hand models (character classes isKeyCh / isTokValCh, charsetValue?, continuation?), urllib unquote as pctUnquote",
+        "round 3 (Props/C06T2): parse_dict_header (regex _charset_value_re = hand model charsetValue?, urllib unquote for the four safe encodings = hand model pctUnquote), parse_cache_control_header, parse_csp_header and dump_csp_header are regenerated from the source and proved equal to the hand model for all inputs",
+        "round 3: parse_list_header (urllib's parse_http_list enters as the hand model parseHttpList), dump_header (list and dict forms), dump_options_header, quote_etag, parse_set_header, parse_age (int() = hand model pyInt, timedelta as seconds), dump_age (int ages), parse_content_range_header and the ContentRange constructor are regenerated from the source as well (Gen/PyFns_Http.lean, Gen/PyFns_HttpDict.lean) and proved equal to the hand model for all inputs (Props/C06T); a Python dict is modelled as its item list in insertion order (Util/PyPrelude.lean dict* primitives, validated by stream prelude-kernels)",
         "quote_header_value (str values), unquote_header_value, is_byte_range_valid and Range.to_header are regenerated from the source by tools/py2lean.py (Gen/PyFns_Http.lean) on every run and proved equal to the hand model for all inputs (Props/C06T); the CPython primitives the translated code calls (str.replace, indexing, slicing) are modelled in Util/PyPrelude.lean and validated by stream prelude-kernels",
         "urllib.request.parse_http_list, urllib.parse.unquote, str.strip/lower/title, int(), base64 and the regexes werkzeug compiles are hand-modelled CPython primitives, validated by the stream (character classes and literal sets are regenerated from the live objects; regex sources are pinned)",
         "str.lower()/title() are exact for U+0000..U+00FF (generated tables) and identity above; theorems that involve them restrict units / schemes accordingly",
         "integers are unbounded in the model; CPython refuses int<->str conversions beyond 4300 digits (ValueError) - outside every theorem's practical reach and caught as ValueError by every parser",
         "http_date/parse_date: the civil-date arithmetic is the model's own (proved); email.utils' formatter/parser are Python's and are tied to it by the stream (date, dateaware codecs); parseDate models email.utils only on the IMF-fixdate layout",
         "ETags stores frozensets: the theorem is stated for every iteration order of the two sets",
+        "HeaderSet mutation histories: the mutators update / add / remove / discard / __setitem__ are the definitions regenerated from structures.py (Gen/PyFns_HeaderSet, proved equal to C08's hand model in Props/C08T), clear / __delitem__ are C08's hand model; `headerSet_history_roundtrip` rests on C08's invariant theorem; str.lower() is ASCII case folding in that model (the stream uses ASCII-cased members); histories that create case-duplicates (known findings F08b / F08c of C08) are outside the domain and are compared model-vs-code only",
+        "cache-control / CSP assignment histories are run on ResponseCacheControl / ContentSecurityPolicy through the typed properties (setattr / delattr) and dict operations; RequestCacheControl is immutable",
     ],
     trusted_extra=["CPython str / re / urllib / email.utils / base64 / datetime semantics for the modelled primitives (validated by the stream, not verified)"],
-    quick_budget=6000,
+    quick_budget=10000,
     thorough_budget=120000,
 )
 
 MANIFEST = {
-    "level_text": "Machine-checked Lean 4 theorems parse(dump v) = v for each header codec over an executable model whose character classes, literal sets and typed-property tables are regenerated from the live werkzeug objects on every run; the hand-written scanners (urllib list scanner, option scanner, etag regex, range/content-range parsers, base64, civil dates) are tied to the code by a differential dump->parse stream, and the round-trip + normal-form oracle runs on the real code.",
+    "level_text": "Machine-checked Lean 4 theorems parse(dump v) = v for each header codec (for header sets, cache-control and CSP objects: for every object reachable by a mutation / assignment history; normal form on arbitrary header text for list, set, etag, Range, Content-Range and CSP headers) over an executable model whose character classes, literal sets and typed-property tables are regenerated from the live werkzeug objects on every run; the hand-written scanners (urllib list scanner, option scanner, etag regex, range/content-range parsers, base64, civil dates) are tied to the code by a differential dump->parse stream, and the round-trip + normal-form oracle runs on the real code.",
     "level_note": "Trusted: Lean kernel; extract.py; the correspondence harness; CPython str/re/urllib/email.utils/base64/datetime for modelled primitives. str.lower/title exact below U+0100 only.",
     "technique": "Lean 4 proof (induction over character lists, decide +kernel over regenerated class tables, omega for civil-date arithmetic) + model/code correspondence",
     "design_ref": "DESIGN.md section 4, C06",
